@@ -43,6 +43,7 @@ func c10Lookups(c *ctx) {
 		}
 		c.emit(obj{"ev": "C10Year", "y": base - 1, "b": base, "rows": rows})
 	}
+	c10BaseZero(c, now)
 	for bi, base := range bases {
 		years := []int{base, base + 1, now - 1, now}
 		// a result before the base year can only be a 60-year partner of the year before it
@@ -106,6 +107,13 @@ func c10Lookups(c *ctx) {
 					add(ty, tm, td, t)
 				}
 			}
+			// the two ends of the civil year: the last rat slot of the year runs into the next one
+			for _, t := range []int{82800, 84600, 86399} {
+				add(y, 12, 31, t)
+			}
+			for _, t := range []int{0, 1800, 3599} {
+				add(y, 1, 1, t)
+			}
 			for k := 0; k < 3; k++ {
 				m, d := 1+c.rng.Intn(12), 1+c.rng.Intn(28)
 				for _, t := range []int{82800, 86399, 0, 3599, 3600, 82799} {
@@ -132,6 +140,25 @@ func c10Lookups(c *ctx) {
 				c.emit(obj{"ev": "C10Year", "y": y, "b": base, "rows": rows})
 			}
 		}
+	}
+}
+
+// base year 0 (an explicit base that happens to be the zero value): a few moments of any era
+func c10BaseZero(c *ctx, now int) {
+	rows := []obj{}
+	for k := 0; k < 24; k++ {
+		y := 1 + c.rng.Intn(now)
+		if k%3 == 0 {
+			y = 1583 + c.rng.Intn(now-1583)
+		}
+		q, bad := safeSolar(y, 1+c.rng.Intn(12), 1+c.rng.Intn(28), c.rng.Intn(24), c.rng.Intn(60), 0)
+		if bad || !c.mine(k) {
+			continue
+		}
+		rows = append(rows, c10Row(q, 1+k%2, 0, 1))
+	}
+	if len(rows) > 0 {
+		c.emit(obj{"ev": "C10Year", "y": 0, "b": 0, "rows": rows})
 	}
 }
 
